@@ -245,9 +245,55 @@ ReuseCalls(doc) ==
       o \in {doc.ops[i].name : i \in DOMAIN doc.ops} \cup (IF Len(doc.ops) = 1 THEN {""} ELSE {}),
       g \in { NoVars, [sv |-> StrV("one")], [sv |-> StrV("two"), bv |-> BoolV(TRUE)] } }
 
+\* ---- abstract types: interface and union typed fields, fragments with object / interface / union
+\* ---- conditions under every container kind (C08; realised by the reflection strategy only)
+TN == F("", "__typename")
+CondSelsAbs == [ A |-> {<<F("", "n")>>, <<F("x", "name"), TN>>}, B |-> {<<F("", "flag")>>, <<TN>>},
+                 Named |-> {<<F("", "name")>>, <<F("y", "name"), TN>>}, Any |-> {<<TN>>}, C |-> {<<F("", "only")>>} ]
+AbsConds == {"A", "B", "Named", "Any", "C"}
+AbsFrag(c, s) == Inl(c, s)
+AbsTops == {"one", "named", "any", "a", "items"}
+FamAbstract ==
+  \* one fragment per condition under each container
+  { Plain("abstract", <<FS("", top, <<TN, Inl(c, s)>>)>>) : top \in AbsTops, <<c, s>> \in UNION { {c} \X CondSelsAbs[c] : c \in AbsConds } }
+  \* two fragments with different conditions, and the interface's own field selected directly
+  \cup { Plain("abstract", <<FS("", top, <<Inl(c1, s1), Inl(c2, s2)>>)>>) :
+           top \in {"named", "any", "one"}, <<c1, s1>> \in {<<"A", <<F("", "n")>>>>, <<"Named", <<F("", "name")>>>>},
+           <<c2, s2>> \in {<<"B", <<F("", "flag")>>>>, <<"Any", <<TN>>>>, <<"A", <<F("x", "name")>>>>} }
+  \cup { Plain("abstract", <<FS("", top, <<F("", "name"), Inl(c, s)>>)>>) : top \in {"one", "named"}, <<c, s>> \in {<<"A", <<F("", "n")>>>>, <<"B", <<F("", "flag")>>>>} }
+  \* named fragments with abstract and concrete conditions
+  \cup { Case("abstract", DocF(<<FS("", top, <<Spr("F"), TN>>)>>, <<Frg("F", c, s)>>), "", NoVars, {}) :
+           top \in AbsTops, <<c, s>> \in UNION { {c} \X CondSelsAbs[c] : c \in {"A", "B", "Named", "Any"} } }
+  \* nested: a fragment on a concrete type reaching another abstract position
+  \cup { Plain("abstract", <<FS("", top, <<Inl("A", <<FS("", "peer", <<Inl(c, s), TN>>)>>), Inl("B", <<FS("", "peer", <<Inl("Named", <<F("", "name")>>)>>)>>)>>)>>) :
+           top \in {"named", "any"}, <<c, s>> \in {<<"Named", <<F("", "name")>>>>, <<"B", <<F("", "flag")>>>>, <<"A", <<F("", "n")>>>>} }
+
+\* undefined field under a union member / interface member reached through a condition-less fragment (C10, reflection only)
+FamDefectsAbs ==
+  { Plain("defectabs", s) : s \in {
+      <<FS("", "any", <<Inl("", <<F("", "flag")>>), TN>>)>>,
+      <<FS("", "any", <<Inl("B", <<F("", "flag")>>), Inl("", <<F("", "n")>>)>>)>>,
+      <<FS("", "named", <<F("", "name"), Inl("A", <<F("", "nope")>>)>>)>>,
+      <<FS("", "any", <<Inl("A", <<FA("", "name", <<BogusArg>>), F("", "n")>>)>>)>>,
+      <<FS("", "named", <<Inl("B", <<FA("", "name", <<BogusArg>>), F("", "flag")>>)>>)>> } }
+
+\* ---- mixed graphs: every assignment of a strategy to each node (C02) -------------------------
+\* A node is either an object implementing the Resolver interface ("resolver") or plain data
+\* ("plain"), which is served by the root resolver when one is installed and by reflection otherwise.
+MixDocs ==
+  { Doc1(<<F("", "title"), FS("", "a", <<F("", "name"), FS("", "peer", <<F("", "flag"), FS("", "peer", <<F("", "n")>>)>>)>>),
+           FS("", "items", <<F("x", "name"), FS("", "kids", <<F("", "n"), TN>>)>>)>>),
+    Doc1(<<FS("", "matrix", <<F("", "n"), FS("", "self", <<F("", "name")>>)>>), F("", "grid"), F("", "bad")>>),
+    Doc1(<<FS("", "a", <<F("", "boom"), Inl("A", <<F("", "name")>>), FS("", "kids", <<Inl("", <<F("", "n")>>)>>)>>), FS("", "nul", <<F("", "n")>>)>>),
+    DocF(<<FS("", "a", <<Spr("F")>>), FS("z", "items", <<Spr("F"), F("", "n")>>)>>, <<Frg("F", "A", <<F("", "name"), FS("", "peer", <<F("", "name")>>)>>)>>) }
+MixAssigns == [ {"q", "a1", "a2", "b1"} -> {"resolver", "plain"} ]
+FamMixed ==
+  { Case("mixed", d, "", NoVars, {}) @@ [mix |-> [assign |-> as @@ [m |-> "plain"], any |-> an]] :
+       d \in MixDocs, as \in MixAssigns, an \in BOOLEAN }
+
 Families ==
   [ flat |-> FamFlat, nest1 |-> FamNest1, nest2 |-> FamNest2, nest3 |-> FamNest3,
     inline1 |-> FamInline1, inline2 |-> FamInline2, spread |-> FamSpread, dups |-> FamDups,
     args |-> FamArgs, ops |-> FamOps, dirs |-> FamDirs, defect |-> FamDefects,
-    inputs |-> FamInputs, faultnth |-> FamFaultsNth, fault0 |-> FamFaults0, fault1 |-> FamFaults1, fault2 |-> FamFaults2 ]
+    inputs |-> FamInputs, mixed |-> FamMixed, abstract |-> FamAbstract, defectabs |-> FamDefectsAbs, faultnth |-> FamFaultsNth, fault0 |-> FamFaults0, fault1 |-> FamFaults1, fault2 |-> FamFaults2 ]
 =============================================================================
